@@ -164,17 +164,21 @@ def _kernel_info(db, chk, cs):
         want = {"count": T.C(1), "sum_dur": at("dur"), "kernel_span": T.sub(at("end"), at("ts")), "first_start": at("ts"), "last_end": at("end")}
         chk.ob(rule, "device leaf: (count, dur, span, start, end) = (1, its dur, end - ts, its ts, its end) read at the node's own id", a == want, where,
                found={k: T.show(v)[:70] for k, v in a.items()}, accepted={k: T.show(v)[:70] for k, v in want.items()})
-    gk = [v for t, v, s_ in H.assignments(fn, nested=False) if H.name_id(t) == "gpu_kernels"]
-    chk.ob(rule, "the kernel lookup tables hold the device rows of this graph (stream != -1)", len(gk) == 1 and "stream.ne(-1)" in ast.unparse(gk[0]) and all(c in ast.unparse(gk[0]) for c in ("'ts'", "'dur'", "'end'")), where,
+    gk = []
+    for pat in ("$o.loc[$o.stream.ne(-1)][['ts', 'dur', 'end']]", "$o.loc[$o['stream'].ne(-1)][['ts', 'dur', 'end']]", "$o.loc[$o.stream != -1][['ts', 'dur', 'end']]",
+                "$o.loc[$o['stream'] != -1][['ts', 'dur', 'end']]", "$o[$o['stream'] != -1][['ts', 'dur', 'end']]", "$o[$o.stream.ne(-1)][['ts', 'dur', 'end']]"):
+        gk += [n for n, b in H.find_match(pat, fn, nested=False)]
+    series = {c: H.find_match(f"$s = $g['{c}']", fn, nested=False) for c in ("ts", "end", "dur")}
+    chk.ob(rule, "the kernel lookup tables hold the device rows of this graph (stream != -1), columns ts / end / dur", len(gk) == 1 and all(len(v) == 1 for v in series.values()), where,
            found=[ast.unparse(g) for g in gk], accepted="ops.loc[ops.stream.ne(-1)][['ts', 'dur', 'end']]")
     # write-back agreement (names of the stack columns <-> namedtuple fields)
     pairs = {}
     for n in ast.walk(fn):
-        if isinstance(n, ast.Assign) and isinstance(n.targets[0], ast.Subscript) and "full_df.loc" in ast.unparse(n.targets[0]):
-            key = n.targets[0].slice
-            if isinstance(key, ast.Tuple) and isinstance(key.elts[1], ast.Constant):
-                src = [x for x in ast.walk(n.value) if isinstance(x, ast.Subscript) and H.name_id(x.value) == "df_info"]
-                pairs[key.elts[1].value] = lit(src[0].slice) if src else None
+        if isinstance(n, ast.Assign):
+            for col in ("num_kernels", "kernel_dur_sum", "kernel_span", "first_kernel_start", "last_kernel_end"):
+                for fld in ("count", "sum_dur", "kernel_span", "first_start", "last_end"):
+                    if H.match(f"self.full_df.loc[$d.index, '{col}'] = $d['{fld}'].astype($$t)", n) is not None or H.match(f"self.full_df.loc[$d.index, '{col}'] = $d['{fld}']", n) is not None:
+                        pairs[col] = fld
     want = {"num_kernels": "count", "kernel_dur_sum": "sum_dur", "kernel_span": "kernel_span", "first_kernel_start": "first_start", "last_kernel_end": "last_end"}
     chk.ob(rule, "each stack column is written from the like-meaning field of the kernel info", pairs == want, where, found=pairs, accepted=want, why="a swapped pair reports e.g. the span as the duration sum")
     nt = [c for c in ast.walk(fn) if isinstance(c, ast.Call) and H.name_id(c.func) == "namedtuple"]
@@ -221,7 +225,9 @@ def _defaults(db, chk, cg):
 def _link(db, chk, cs):
     lk = cs.func("CallStackGraph._link_cpu_and_gpu")
     calls = [c for c in H.calls(lk) if isinstance(c.func, ast.Attribute) and c.func.attr == "_add_edge"]
-    ok = len(calls) == 1 and [ast.unparse(a) for a in calls[0].args] == ["cpu_index", "gpu_index", "DeviceType.GPU"]
+    loops = [n for n in ast.walk(lk) if isinstance(n, ast.For) and isinstance(n.target, ast.Tuple) and len(n.target.elts) == 2]
+    proj = [n for n in ast.walk(lk) if isinstance(n, ast.List) and [H.str_const(e) for e in n.elts] == ["cpu_index", "gpu_index"]]
+    ok = len(calls) == 1 and len(loops) == 1 and len(proj) == 1 and [ast.unparse(a) for a in calls[0].args] == [H.name_id(loops[0].target.elts[0]), H.name_id(loops[0].target.elts[1]), "DeviceType.GPU"]
     chk.ob("C13.R3-link-direction", "each device activity becomes a child of the host call linked to it, as a GPU node", ok, cs.loc(lk), found=[ast.unparse(c) for c in calls], accepted="self._add_edge(cpu_index, gpu_index, DeviceType.GPU)",
            why="the reverse direction makes the launch call a child of its kernel; a CPU device type gives kernels height 1")
     sel = [n for n in ast.walk(lk) if isinstance(n, ast.Call) and isinstance(n.func, ast.Attribute) and n.func.attr == "isin"]
@@ -234,11 +240,23 @@ def _link(db, chk, cs):
 def _backward(db, chk, cs, cg):
     rule = "C13.R4-backward-attachment"
     f = cg.func("CallGraph._connect_stacks")
-    src = ast.unparse(f).replace(" ", "")
-    ok = "self.mapping['label'].isin(['bwd','main'])" in src and ".sort_values('label')" in src and "stacks.shape[0]==2" in src and \
-        "bwd_stack:CallStackGraph=self.call_stacks[stack_indices[0]]" in src and "main_stack:CallStackGraph=self.call_stacks[stack_indices[1]]" in src and "self._link_main_and_bwd_stacks(main_stack,bwd_stack)" in src
+    sel = H.find_match("self.mapping['label'].isin(['bwd', 'main'])", f) + H.find_match("self.mapping['label'].isin(['main', 'bwd'])", f)
+    srt = [c for c in H.calls(f) if isinstance(c.func, ast.Attribute) and c.func.attr == "sort_values" and (lit(c.args[0]) if c.args else lit(H.kwarg(c, "by"))) in ("label", ["label"])
+           and lit(H.kwarg(c, "ascending"), True) is True]
+    guard = H.find_match("$st.shape[0] == 2", f) + H.find_match("len($st) == 2", f)
+    link = [c for c in H.calls(f) if isinstance(c.func, ast.Attribute) and c.func.attr == "_link_main_and_bwd_stacks"]
+    ok = False
+    if len(sel) == 1 and len(srt) == 1 and len(guard) >= 1 and len(link) == 1 and len(link[0].args) == 2:
+        mn, bw = (H.name_id(a_) for a_ in link[0].args)
+        dm = [ast.unparse(v) for t, v, s_ in H.assignments(f) if H.name_id(t) == mn]
+        dbw = [ast.unparse(v) for t, v, s_ in H.assignments(f) if H.name_id(t) == bw]
+        idx_var = None
+        for t, v, s_ in H.assignments(f):
+            if H.match("$st['stack_index'].to_list()", v) is not None or H.match("$st['stack_index'].tolist()", v) is not None:
+                idx_var = H.name_id(t)
+        ok = idx_var is not None and dm == [f"self.call_stacks[{idx_var}[1]]"] and dbw == [f"self.call_stacks[{idx_var}[0]]"]
     chk.ob(rule, "attachment only when the rank has exactly one main and one bwd stack; sorted by label so that index 0 is bwd and 1 is main", ok, cg.loc(f),
-           found=[ast.unparse(s)[:120] for s in f.body], accepted="label isin [bwd, main] sorted by label; shape[0] == 2; bwd = [0], main = [1]")
+           found=[ast.unparse(s)[:120] for s in f.body], accepted="label isin [bwd, main] sorted by label ascending; shape[0] == 2; bwd = stack [0], main = stack [1]")
     g = cg.func("CallGraph._link_main_and_bwd_stacks._get_backward_parents")
     loops = [n for n in g.body if isinstance(n, ast.For)]
     okp = False
@@ -254,7 +272,8 @@ def _backward(db, chk, cs, cg):
             guard = cg.parent.get(id(rets[0]))
             gt = ast.unparse(guard.test).replace(" ", "") if isinstance(guard, ast.If) else ""
             det = order + defs + [gt]
-            okp = order == ["bwd_annotation_str", "'ProfilerStep#'"] and len(defs) == 1 and "main_stack.df[" in defs[0] and ".isin(" in defs[0] and gt == f"len({var})>0"
+            gok = isinstance(guard, ast.If) and (H.match(f"len({var}) > 0", guard.test) is not None or H.match(f"{var}", guard.test) is not None or H.match(f"len({var}) != 0", guard.test) is not None)
+            okp = order == ["bwd_annotation_str", "'ProfilerStep#'"] and len(defs) == 1 and "main_stack.df[" in defs[0] and ".isin(" in defs[0] and gok
     df_default = H.param_default(cg.func("CallGraph._link_main_and_bwd_stacks"), "bwd_annotation_str")
     chk.ob(rule, "candidate annotations are tried in the order '## backward ##' then 'ProfilerStep#', and a candidate is chosen iff THIS rank's main thread has such events", okp and lit(df_default) == "## backward ##",
            cg.loc(g), found=det, accepted=["bwd_annotation_str ('## backward ##')", "'ProfilerStep#'", "indices from main_stack.df[...isin(ids)]", "len(indices) > 0"],
